@@ -132,17 +132,18 @@ func canonInfo(info *compose.InterruptInfo) *InfoObs {
 
 // SegObs is what one call (a "segment" of the run) showed.
 type SegObs struct {
-	Call   CallSpec `json:"call"`
-	WithID bool     `json:"with_id"`
-	Class  string   `json:"class"` // done | interrupt | steplimit | fail | panic | hang
-	Err    string   `json:"err,omitempty"`
-	Out    *Val     `json:"out,omitempty"`
-	Info   *InfoObs `json:"info,omitempty"`
-	Sets   int      `json:"sets"`   // store.Set calls made by this call
-	Stored bool     `json:"stored"` // a checkpoint exists under the id after the call
-	Execs  []*Exec  `json:"execs"`
-	Events []Event  `json:"events,omitempty"`
-	Mods   []ModObs `json:"mods,omitempty"`
+	Call    CallSpec `json:"call"`
+	WithID  bool     `json:"with_id"`
+	Class   string   `json:"class"` // done | interrupt | steplimit | fail | panic | hang
+	Err     string   `json:"err,omitempty"`
+	NodeErr bool     `json:"node_err,omitempty"` // the error was raised by a node (path attached), not by the top-level loop
+	Out     *Val     `json:"out,omitempty"`
+	Info    *InfoObs `json:"info,omitempty"`
+	Sets    int      `json:"sets"`   // store.Set calls made by this call
+	Stored  bool     `json:"stored"` // a checkpoint exists under the id after the call
+	Execs   []*Exec  `json:"execs"`
+	Events  []Event  `json:"events,omitempty"`
+	Mods    []ModObs `json:"mods,omitempty"`
 }
 
 type RunObs struct {
@@ -292,6 +293,7 @@ func call(r compose.Runnable[map[string]any, map[string]any], rec *recorder, st 
 			seg.Class = "done"
 			seg.Out = canon(rr.out)
 		default:
+			seg.NodeErr = strings.Contains(rr.err.Error(), "node path: [")
 			if info, ok := compose.ExtractInterruptInfo(rr.err); ok {
 				seg.Class = "interrupt"
 				seg.Info = canonInfo(info)
